@@ -59,7 +59,10 @@ Proof.
   assert (E : c = header13 h (lenN x) ++ enc_body (senc V11) (tokens 4096 x)) by congruence. subst c. clear Hc.
   rewrite app_length, enc_body_length, header13_length.
   destruct (cost_le_total V11 4096 (tokens 4096 x) (tokens_ranges 4096 x)) as [Hc Hl].
-  rewrite tokens_total in *. fold (cost V11 (tokens 4096 x)). lia.
+  rewrite tokens_total in *. fold (cost V11 (tokens 4096 x)).
+  (* the header term is the same on both sides: keep it abstract, and keep the N hypotheses away from lia *)
+  clear Hn Hh. generalize (if andb (0 <? lenN x)%N (lenN x <? 2 ^ 24)%N then 8 else 12). intros hd.
+  set (C := cost V11 (tokens 4096 x)) in *. set (K := length (tokens 4096 x)) in *. clearbody C K. lia.
 Qed.
 
 (* ---------------------------------------------------------------- Part 2: periodic inputs *)
@@ -240,5 +243,7 @@ Proof.
   destruct (compress13_enc m x Hn) as [h Hh]. rewrite Hh in Hc.
   assert (E : c = header13 h (lenN x) ++ enc_body (senc V11) (tokens 4096 x)) by congruence. subst c. clear Hc.
   rewrite app_length, enc_body_length, header13_length. fold (cost V11 (tokens 4096 x)).
-  cbn [ref_bytes] in Hco. subst refs. lia.
+  cbn [ref_bytes] in Hco. subst refs.
+  clear Hn Hh Hper Hd. generalize (if andb (0 <? lenN x)%N (lenN x <? 2 ^ 24)%N then 8 else 12). intros hd.
+  set (C := cost V11 (tokens 4096 x)) in *. set (K := length (tokens 4096 x)) in *. clearbody C K. lia.
 Qed.
